@@ -69,12 +69,12 @@ def main():
       only = a.split('=', 1)[1].split(',')
   prefixes = [a for a in sys.argv[2:] if not a.startswith('-')]
   jobs = []
-  for d in sorted(glob.glob(os.path.join(VERIF, mode, '*'))):
+  for d in sorted(glob.glob(os.path.join(VERIF, mode.replace('pending', 'benign-pending'), '*'))):
     name = os.path.basename(d)
     patch = os.path.join(d, 'patch.diff')
     if not os.path.isfile(patch) or (prefixes and not any(name.startswith(p) for p in prefixes)):
       continue
-    if mode == 'benign':
+    if mode in ('benign', 'pending'):
       pids = only or PROPS
     else:
       meta = json.load(open(os.path.join(d, 'meta.json')))
@@ -88,7 +88,7 @@ def main():
       if res is None:
         print('%-22s PATCH DOES NOT APPLY %s' % (name, err.strip().split('\n')[0]))
         continue
-      if mode == 'benign':
+      if mode in ('benign', 'pending'):
         noisy = {p: r for p, r in res.items() if r[0] != 0}
         if noisy:
           bad += 1
@@ -121,7 +121,7 @@ def main():
                 print('      ' + l[:250])
         else:
           print('%-22s killed: %s' % (name, '; '.join('%s %s' % (p, ','.join(r[1])) for p, r in sorted(res.items()))))
-  print('%s: %d variants, %d %s' % (mode, len(jobs), bad, 'not silent' if mode == 'benign' else 'missed'))
+  print('%s: %d variants, %d %s' % (mode, len(jobs), bad, 'not silent' if mode in ('benign', 'pending') else 'missed'))
 
 
 if __name__ == '__main__':
